@@ -224,3 +224,168 @@ theorem mkDict_flatItems (kvs : List (Obj × Obj)) (h : dictKeysOk kvs [] = true
   simpa [mkDict] using this
 
 end Dask.TaskTerm
+
+namespace Dask.TaskTerm
+
+/-! ### dependencies of converted nodes vs `get_dependencies` (on clean objects) -/
+
+theorem inKeys_iff_ref (keys : List Obj) (hKt : ∀ k ∈ keys, k.keyTyped = true) (o : Obj) :
+    inKeys keys o = (o.hashable && keys.contains o) := by
+  unfold inKeys
+  cases hc : keys.contains o with
+  | true =>
+    have : o ∈ keys := by simpa using hc
+    rw [hKt o this]; simp
+  | false => simp
+
+theorem not_key_of_not_keyTyped (keys : List Obj) (hKt : ∀ k ∈ keys, k.keyTyped = true) (o : Obj)
+    (h : o.keyTyped = false) : (o.hashable && keys.contains o) = false := by
+  cases hc : keys.contains o with
+  | true =>
+    have : o ∈ keys := by simpa using hc
+    rw [hKt o this] at h; cases h
+  | false => simp
+
+mutual
+theorem legacyRefs_plain (keys : List Obj) (hKt : ∀ k ∈ keys, k.keyTyped = true) :
+    ∀ o, plain keys o = true → legacyRefs keys o = []
+  | .tuple (h :: args), hp => by
+    simp only [plain, Bool.and_eq_true, Bool.not_eq_true'] at hp
+    have h2 := hp.1.1.2
+    rw [inKeys_iff_ref keys hKt] at h2
+    simp only [legacyRefs, hp.1.1.1, Bool.false_eq_true, if_false, h2]
+  | .tuple [], hp => by
+    simp only [plain, Bool.not_eq_true'] at hp
+    rw [inKeys_iff_ref keys hKt] at hp
+    simp only [Obj.hashable, hashableList, Bool.true_and] at hp
+    simp only [legacyRefs, hp, Bool.false_eq_true, if_false]
+  | .list xs, hp => by
+    simp only [plain] at hp
+    simp only [legacyRefs, legacyRefsList_plain keys hKt xs hp]
+  | .dict kvs, hp => by
+    simp only [plain] at hp
+    simp only [legacyRefs, legacyRefsVals_plain keys hKt kvs hp]
+  | .int n, hp => by
+    simp only [plain, Bool.not_eq_true'] at hp
+    rw [inKeys_iff_ref keys hKt] at hp
+    simp only [legacyRefs, hp, Bool.false_eq_true, if_false]
+  | .str s, hp => by
+    simp only [plain, Bool.not_eq_true'] at hp
+    rw [inKeys_iff_ref keys hKt] at hp
+    simp only [legacyRefs, hp, Bool.false_eq_true, if_false]
+  | .none, _ => by
+    simp only [legacyRefs, not_key_of_not_keyTyped keys hKt .none rfl, Bool.false_eq_true, if_false]
+  | .fn f, _ => by
+    simp only [legacyRefs, not_key_of_not_keyTyped keys hKt (.fn f) rfl, Bool.false_eq_true, if_false]
+  | .quoted v, _ => by
+    simp only [legacyRefs, not_key_of_not_keyTyped keys hKt (.quoted v) rfl, Bool.false_eq_true, if_false]
+  | .app f a k, _ => by
+    simp only [legacyRefs, not_key_of_not_keyTyped keys hKt (.app f a k) rfl, Bool.false_eq_true, if_false]
+theorem legacyRefsList_plain (keys : List Obj) (hKt : ∀ k ∈ keys, k.keyTyped = true) :
+    ∀ xs, plainList keys xs = true → legacyRefsList keys xs = []
+  | [], _ => by simp [legacyRefsList]
+  | x :: xs, hp => by
+    simp only [plainList, Bool.and_eq_true] at hp
+    simp [legacyRefsList, legacyRefs_plain keys hKt x hp.1, legacyRefsList_plain keys hKt xs hp.2]
+theorem legacyRefsVals_plain (keys : List Obj) (hKt : ∀ k ∈ keys, k.keyTyped = true) :
+    ∀ kvs, plainVals keys kvs = true → legacyRefsVals keys kvs = []
+  | [], _ => by simp [legacyRefsVals]
+  | (_, v) :: rest, hp => by
+    simp only [plainVals, Bool.and_eq_true] at hp
+    simp [legacyRefsVals, legacyRefs_plain keys hKt v hp.1, legacyRefsVals_plain keys hKt rest hp.2]
+end
+
+theorem depsList_raw : ∀ xs : List Obj, depsList (xs.map Node.raw) = []
+  | [] => rfl
+  | x :: xs => by simp [depsList, Node.deps, depsList_raw xs]
+
+theorem depsList_rawItems : ∀ kvs : List (Obj × Obj), depsList (rawItems kvs) = []
+  | [] => rfl
+  | (k, v) :: rest => by simp [rawItems, depsList, Node.deps, depsList_rawItems rest]
+
+mutual
+/-- **On clean objects the converted node depends on exactly what `get_dependencies` reports** (same list). -/
+theorem convert_deps (keys : List Obj) (hKt : ∀ k ∈ keys, k.keyTyped = true) :
+    ∀ o, clean keys o = true → (convert keys o).deps = legacyRefs keys o
+  | .tuple (h :: args), hc => by
+    simp only [clean] at hc
+    by_cases h1 : h.callable = true
+    · simp only [h1, if_true] at hc
+      simp [convert, legacyRefs, h1, Node.deps, depsKw, convertArgs_deps keys hKt args hc]
+    · simp only [h1, Bool.false_eq_true, if_false] at hc
+      by_cases h2 : inKeys keys (.tuple (h :: args)) = true
+      · have h2' := h2
+        rw [inKeys_iff_ref keys hKt] at h2'
+        simp only [convert, legacyRefs, h1, h2, h2', Node.deps, Bool.false_eq_true, if_false, if_true]
+      · simp only [h2, Bool.false_eq_true, if_false, Bool.and_eq_true] at hc
+        have hp : plain keys (.tuple (h :: args)) = true := by simp [plain, h1, h2, hc.1, hc.2]
+        rw [convert_plain keys _ hp, legacyRefs_plain keys hKt _ hp]; rfl
+  | .tuple [], _ => by
+    by_cases h2 : inKeys keys (.tuple []) = true
+    · have h2' := h2
+      rw [inKeys_iff_ref keys hKt] at h2'
+      simp only [Obj.hashable, hashableList, Bool.true_and] at h2'
+      simp only [convert, legacyRefs, h2, h2', Node.deps, if_true]
+    · have h2f : inKeys keys (.tuple []) = false := by simpa using h2
+      have h2' := h2f
+      rw [inKeys_iff_ref keys hKt] at h2'
+      simp only [Obj.hashable, hashableList, Bool.true_and] at h2'
+      simp only [convert, legacyRefs, h2f, h2', Node.deps, Bool.false_eq_true, if_false]
+  | .list xs, hc => by
+    simp only [clean] at hc
+    have ih := convertList_deps keys hKt xs hc
+    by_cases hg : (convertList keys xs).any Node.isGraphNode = true
+    · simp [convert, hg, Node.deps, depsKw, ih, legacyRefs]
+    · have hg' : (convertList keys xs).any Node.isGraphNode = false := by simpa using hg
+      have e := convertList_no_graphNode keys xs hg'
+      rw [e, depsList_raw] at ih
+      simp [convert, hg', Node.deps, legacyRefs, ← ih]
+  | .dict kvs, hc => by
+    simp only [clean] at hc
+    simp [convert, Node.deps, legacyRefs, legacyRefsVals_plain keys hKt kvs hc]
+  | .int n, _ => by
+    by_cases h2 : inKeys keys (.int n) = true
+    · have h2' := h2; rw [inKeys_iff_ref keys hKt] at h2'
+      simp only [convert, legacyRefs, h2, h2', Node.deps, if_true]
+    · have h2f : inKeys keys (.int n) = false := by simpa using h2
+      have h2' := h2f; rw [inKeys_iff_ref keys hKt] at h2'
+      simp only [convert, legacyRefs, h2f, h2', Node.deps, Bool.false_eq_true, if_false]
+  | .str s, _ => by
+    by_cases h2 : inKeys keys (.str s) = true
+    · have h2' := h2; rw [inKeys_iff_ref keys hKt] at h2'
+      simp only [convert, legacyRefs, h2, h2', Node.deps, if_true]
+    · have h2f : inKeys keys (.str s) = false := by simpa using h2
+      have h2' := h2f; rw [inKeys_iff_ref keys hKt] at h2'
+      simp only [convert, legacyRefs, h2f, h2', Node.deps, Bool.false_eq_true, if_false]
+  | .none, _ => by rw [legacyRefs_plain keys hKt _ (by simp [plain])]; simp [convert, Node.deps]
+  | .fn _, _ => by rw [legacyRefs_plain keys hKt _ (by simp [plain])]; simp [convert, Node.deps]
+  | .quoted _, _ => by rw [legacyRefs_plain keys hKt _ (by simp [plain])]; simp [convert, Node.deps]
+  | .app _ _ _, _ => by rw [legacyRefs_plain keys hKt _ (by simp [plain])]; simp [convert, Node.deps]
+theorem convertList_deps (keys : List Obj) (hKt : ∀ k ∈ keys, k.keyTyped = true) :
+    ∀ xs, cleanList keys xs = true → depsList (convertList keys xs) = legacyRefsList keys xs
+  | [], _ => by simp [convertList, depsList, legacyRefsList]
+  | x :: xs, hc => by
+    simp only [cleanList, Bool.and_eq_true] at hc
+    simp [convertList, depsList, legacyRefsList, convert_deps keys hKt x hc.1, convertList_deps keys hKt xs hc.2]
+theorem convertArgs_deps (keys : List Obj) (hKt : ∀ k ∈ keys, k.keyTyped = true) :
+    ∀ xs, cleanList keys xs = true → depsList (convertArgs keys xs) = legacyRefsList keys xs
+  | [], _ => by simp [convertArgs, depsList, legacyRefsList]
+  | x :: xs, hc => by
+    simp only [cleanList, Bool.and_eq_true] at hc
+    have ih := convertArgs_deps keys hKt xs hc.2
+    cases x with
+    | dict kvs =>
+      have hp : plainVals keys kvs = true := by simpa [clean] using hc.1
+      simp [convertArgs, depsList, Node.deps, depsKw, depsList_rawItems, legacyRefsList, legacyRefs,
+        legacyRefsVals_plain keys hKt kvs hp, ih]
+    | tuple ys => simp [convertArgs, depsList, legacyRefsList, convert_deps keys hKt _ hc.1, ih]
+    | list ys => simp [convertArgs, depsList, legacyRefsList, convert_deps keys hKt _ hc.1, ih]
+    | int n => simp [convertArgs, depsList, legacyRefsList, convert_deps keys hKt _ hc.1, ih]
+    | str s => simp [convertArgs, depsList, legacyRefsList, convert_deps keys hKt _ hc.1, ih]
+    | none => simp [convertArgs, depsList, legacyRefsList, convert_deps keys hKt _ hc.1, ih]
+    | fn f => simp [convertArgs, depsList, legacyRefsList, convert_deps keys hKt _ hc.1, ih]
+    | quoted v => simp [convertArgs, depsList, legacyRefsList, convert_deps keys hKt _ hc.1, ih]
+    | app f a k => simp [convertArgs, depsList, legacyRefsList, convert_deps keys hKt _ hc.1, ih]
+end
+
+end Dask.TaskTerm
